@@ -96,6 +96,11 @@ def run(ctx: Ctx):
     ctx.add_model("MC_Pool(per_task)", mc)
     mc2 = tlc.run_tlc("MC_Pool", "MC_Pool_perworker.cfg", ctx.workdir, workers=6)
     ctx.add_model("MC_Pool(per_worker)", mc2)
+    live = tlc.run_tlc("MC_Pool", "MC_Pool_live.cfg", ctx.workdir, workers=4)
+    ctx.add_model("MC_Pool(liveness: every map delivers every result under weak fairness)", live)
+    nofair = tlc.run_tlc("MC_Pool", "MC_Pool_live_x.cfg", ctx.workdir, workers=2, allow_violation=True)
+    if nofair.ok:
+        raise tlc.MachineryError("MC_Pool_live_x: termination holds without fairness - the liveness property is vacuous")
     src = tlc.run_tlc("MC_Pool", "MC_Pool_source.cfg", ctx.workdir, workers=2, allow_violation=True)
     if not src.invariant_violated:
         raise tlc.MachineryError("MC_Pool_source: source tags are schedule independent under per_worker shipping?")
